@@ -18,7 +18,7 @@ import vlib
 
 META = {
     "category": "proof",
-    "text": "Coq theorems (Wire/Props_C15.v, closed under the global context) over an executable model of buffertk (varint fast/slow paths, stack packer filling a buffer of exactly pack_sz bytes), prototk (zig-zag, tags, field iterator, every field type) and a deep embedding of the message shapes prototk_derive accepts with the generic pack/unpack the macro generates: for every value of every well-formed shape pack fills exactly pack_sz bytes, the bytes equal an independent reference encoder of the protobuf wire format and unpack returns the value; unpack of arbitrary bytes is total for every shape (no panic, no out-of-bounds index or slice, no overflow, no fuel exhaustion), returns a suffix of its input and a value of the shape; unknown fields are skipped (insertion lemma, and the general theorem: an older reader decodes a newer writer's bytes to the projection of its value, at every nesting level); varint fast path = slow path = the 10-group specification, canonical form, zig-zag, tag acceptance/rejection, every scalar type; the model is tied to the code by 3-way differential runs (Rust vs extracted model vs independent Python reference) over 28 message types, boundary values, exhaustive short byte strings and 16 kinds of structure-aware mutation.",
+    "text": "Coq theorems (Wire/Props_C15.v, closed under the global context) over an executable model of buffertk (varint fast/slow paths, stack packer filling a buffer of exactly pack_sz bytes), prototk (zig-zag, tags, field iterator, every field type) and a deep embedding of the message shapes prototk_derive accepts with the generic pack/unpack the macro generates: for every value of every well-formed shape pack fills exactly pack_sz bytes, the bytes equal an independent reference encoder of the protobuf wire format and unpack returns the value; unpack of arbitrary bytes is total for every shape (no panic, no out-of-bounds index or slice, no overflow, no fuel exhaustion), returns a suffix of its input and a value of the shape; unknown fields are skipped (insertion lemma, and the general theorem: an older reader decodes a newer writer's bytes to the projection of its value, at every nesting level); varint fast path = slow path = the 10-group specification, canonical form, zig-zag, tag acceptance/rejection, every scalar type; the model is tied to the code by 3-way differential runs (Rust vs extracted model vs independent Python reference) over 28 message types, boundary values, exhaustive short byte strings and 16 kinds of structure-aware mutation. Every encoded value is also streamed into writers that take 3 bytes and 1 byte per call and must deliver the packed bytes and report pack_sz.",
     "note": "Trusted: Coq kernel; tools/constants.py, tools/shapes.py (declared message shapes -> Gen/Shapes_*.v) and the WIRE_TYPE extractor in checks/c15.py; ExtrOcamlBasic extraction + ocaml/wire driver; harness c15 (the derived type family and its text form); the schema descriptions in checks/c15.py mirror the Rust declarations by hand (a mismatch shows as a disagreement, not silently); std's from_utf8 is modelled (Unicode table 3-7) and compared; recursive message types, Result<_, SError> payload text (handled crate) are not modelled.",
 }
 
